@@ -206,12 +206,14 @@ def ref_parse_uint(s):
 
 
 def sessions_of(obs):
-    """ss=<id>.<authhex>.<alive>.<lpm>,... -> {id: (auth bytes, alive, lpm)}"""
+    """ss=<id>.<authhex>.<alive>.<lpm>[.<ended>],... -> {id: (auth bytes, alive as the implementation reports it, lpm, ended)}.
+    ended: the driver saw the session end (its DELETE was answered 200, or a QUIT it posted was committed) — known
+    independently of what the implementation's session table says"""
     d = {}
     if obs.get("ss", "-") != "-":
         for t in obs["ss"].split(","):
-            i, a, al, l = t.split(".")
-            d[int(i)] = (unhx(a), al == "1", int(l))
+            f = t.split(".")
+            d[int(f[0])] = (unhx(f[1]), f[2] == "1", int(f[3]), len(f) > 4 and f[4] == "1")
     return d
 
 
@@ -248,14 +250,14 @@ def session_requests(rng, quick):
     """the C11 matrix on the public dispatcher: targets x routes x credential variants.  Slots: 0 fresh,
     1 logged in, 2 logged in + traffic, 3 deleted, g never created (not yet seen)."""
     reqs = []
-    targets = ["0", "1", "2", "3", "g"]
+    targets = ["0", "1", "2", "3", "4", "5", "6", "g"]
     routes = [("POST", "/message", POSTBODY), ("GET", "/messages", ""), ("DELETE", "", '{"Quitmessage":"bye"}')]
     cmid = [1000]
     def one(meth, suffix, body, t, fmt, cred):
         cmid[0] += 1
         b = (body % cmid[0]) if "%d" in body else body
         reqs.append(R(meth, PUBLIC + "{%s:%s}" % (t, fmt) + suffix, cred, "-", b))
-    for t in ["3"] + [x for x in targets if x != "3"]:
+    for t in list(ENDED) + [x for x in targets if x not in ENDED]:
         if t == "0":
             reqs.append(WATCH)
         others = [x for x in ("0", "1", "2") if x != t]
@@ -263,8 +265,8 @@ def session_requests(rng, quick):
             creds = ["-", "e"] + ["a" + o for o in others] + ["l" + hx("x"), "l" + hx("0" * 256)]
             if t != "g":
                 creds += ["w" + t, "p" + t, "u" + t, "x" + t]
-            if t == "3":
-                creds += ["a3"]          # the deleted session's own (once valid) secret
+            if t in ENDED:
+                creds += ["a" + t]       # the ended session's own (once valid) secret
             for c in creds:
                 one(meth, suffix, body, t, rng.choice(["x", "x", "d", "X"]), c)
     # id syntax variants with the correct secret (read-only route), and wrong methods / shapes
@@ -284,7 +286,7 @@ def session_requests(rng, quick):
     for _ in range(extra):
         t = rng.choice(targets)
         meth, suffix, body = rng.choice(routes[:2])   # read-only / idempotent for refused; POST proposes when entitled
-        pool = ["-", "e", "a0", "a1", "a2", "a3", "w1", "p2", "u0", "x1", "l" + hx("%x" % rng.getrandbits(64))]
+        pool = ["-", "e", "a0", "a1", "a2", "a3", "a4", "a5", "a6", "w1", "p2", "u0", "x1", "l" + hx("%x" % rng.getrandbits(64))]
         one(meth, suffix, body, t, rng.choice(["x", "d", "X", "o", "b", "z", "u", "h", "p"]), rng.choice(pool))
     # finally the entitled requests (these change state): POST and DELETE with the correct secret
     for t in ("0", "1", "2"):
@@ -329,8 +331,17 @@ def setup_ops():
     for k in (1, 2, 3):
         ops += [I(k, "NICK vnick%d" % k), I(k, "USER v%d 0 * :Verif %d" % (k, k))]
     ops += [I(1, "JOIN #verif"), I(2, "JOIN #verif"), I(1, "PRIVMSG #verif :secret-text-of-one"), I(2, "PRIVMSG #verif :secret-text-of-two"),
-            I(2, "PRIVMSG vnick1 :private-for-one-only"), "D:3:%s" % hx('{"Quitmessage":"gone"}')]
+            I(2, "PRIVMSG vnick1 :private-for-one-only")]
+    # sessions that end before they ever logged in (ending them produces no output line for anybody):
+    # 4 deleted while fresh, 5 after NICK only via DELETE, 6 after NICK only via its own QUIT
+    ops += ["C:4", "D:4:%s" % hx('{"Quitmessage":"never said a word"}'),
+            "C:5", I(5, "NICK vhalf5"), "D:5:%s" % hx('{"Quitmessage":"half registered"}'),
+            "C:6", I(6, "NICK vhalf6"), I(6, "QUIT :half registered, leaving")]
+    ops += ["D:3:%s" % hx('{"Quitmessage":"gone"}')]      # last: leaves lastProcessed at its own (largest) index
     return ops
+
+
+ENDED = ("3", "4", "5", "6")     # slots whose session ended during the setup
 
 
 # the rightful owner of session 1 keeps its long poll open while (most of) the matrix runs; every R op then reports
@@ -401,10 +412,14 @@ def monitor_request(o):
         sess = sessions_of(o)
         hdr = None if o["h"] == "!" else unhx(o["h"])
         tid = ref_parse_uint(target)
-        entitled = bool(hdr) and tid is not None and tid in sess and sess[tid][1] and sess[tid][0] == hdr
+        entitled = bool(hdr) and tid is not None and tid in sess and sess[tid][1] and sess[tid][0] == hdr and not sess[tid][3]
+        if cls == "handled" and bool(hdr) and tid in sess and sess[tid][3] and sess[tid][0] == hdr:
+            # the session ended (DELETE answered 200 / its QUIT committed), yet its old secret still opens the route
+            return ("deleted-session-still-served", "%s %s handled (status %d%s) with the secret of session %d, which was deleted before (the implementation still lists it: alive=%s)"
+                    % (o["m"], path, status, (", " + "; ".join(effects)) if effects else "", tid, sess[tid][1]))
         if cls == "handled" and not entitled:
             why = "missing" if hdr is None else "empty" if hdr == b"" else \
-                  "another session's" if any(a == hdr for (a, al, _) in sess.values()) else "wrong"
+                  "another session's" if any(v[0] == hdr for v in sess.values()) else "wrong"
             return ("session-route-handled-without-secret", "%s %s handled (status %d, %s) with %s X-Session-Auth" % (o["m"], path, status, effects or "no visible effect", why))
         if cls != "handled":
             if cls == "notyet" and status == 404:
